@@ -13,7 +13,7 @@ import NmfuModel.Mach
 import NmfuProps.EquivSound
 namespace Nmfu
 
-theorem C05_optimised_equivalent (A B : Machine) (o : SemOpts) (V : List (PS AEv Quest))
+theorem C05_optimised_equivalent (A B : Machine) (o : SemOpts) (V : List (PS Nat Nat AEv Quest))
     (h : certOK (A.sm o) (B.sm o) nSym V = true) (ω : Oracle AEv Quest) (w : List Nat)
     (hw : ∀ x ∈ w, x < nSym) :
     Comparable ((A.sm o).events ω w) ((B.sm o).events ω w) ∧
@@ -21,7 +21,7 @@ theorem C05_optimised_equivalent (A B : Machine) (o : SemOpts) (V : List (PS AEv
       (A.sm o).events ω w = (B.sm o).events ω w) :=
   certOK_sound h (by decide) ω w hw
 
-theorem C05_lag_at_most_one_step (A B : Machine) (o : SemOpts) (V : List (PS AEv Quest))
+theorem C05_lag_at_most_one_step (A B : Machine) (o : SemOpts) (V : List (PS Nat Nat AEv Quest))
     (h : certOK (A.sm o) (B.sm o) nSym V = true) (ω : Oracle AEv Quest) (w : List Nat) (x : Nat)
     (hw : ∀ y ∈ w, y < nSym) (hx : x < nSym) :
     (A.sm o).events ω w <+: (B.sm o).events ω (w ++ [x]) ∧
@@ -46,7 +46,7 @@ def exLazy : Machine :=
     start := 0, outs := #[], startActs := .nil, hooks := ["h"], finishCodes := [], yieldCodes := [] }
 
 def exOpts : SemOpts := { strictDone := false, substLast := false }
-def exCert : List (PS AEv Quest) :=
+def exCert : List (PS Nat Nat AEv Quest) :=
   [⟨some 0, some 0, [], false⟩, ⟨none, none, [], false⟩,
    ⟨some 1, some 1, [.act (.hook "h" none)], true⟩]
 
